@@ -248,6 +248,8 @@ type variant struct {
 	// boundary) over the same ways, members in reverse order; each relation
 	// has to produce its own feature with the ground-truth geometry
 	twoRelations bool
+	// secondFirst: the second relation is listed (and converted) before the first
+	secondFirst bool
 	// opts: 0 = Convert(o); 1 = NoID, NoMeta, NoRelationMembership and
 	// IncludeInvalidPolygons all on; 2 = IncludeInvalidPolygons alone. None of
 	// them is documented to alter the geometry of a valid multipolygon.
@@ -273,6 +275,10 @@ var extVariants = []variant{
 	{name: "extras+oriented+waynodes", annotated: true, typ: "boundary", oriented: true, extras: true, tags: true},
 	{name: "member-nodes", annotated: true, typ: "multipolygon", memberNodes: true},
 	{name: "two-relations+nodes", typ: "multipolygon", twoRelations: true},
+	// relations sharing ways AND carrying orientation annotations: converting one must not
+	// leave the shared ways turned round for the other
+	{name: "two-relations+oriented+waynodes", annotated: true, typ: "multipolygon", oriented: true, twoRelations: true},
+	{name: "two-relations-second-first+oriented+nodes", typ: "boundary", oriented: true, twoRelations: true, secondFirst: true},
 }
 
 var moreTags = osm.Tags{{Key: "boundary", Value: "administrative"}, {Key: "name", Value: "X"}}
@@ -520,6 +526,10 @@ func checkCaseNoKit(col *collector, t polycut.Truth, c polycut.Case, ext bool, n
 			b.OSM.Relations = append(b.OSM.Relations, &osm.Relation{
 				ID: polycut.RelationID + 1, Version: 1, Visible: true, Timestamp: polycut.RelationTime, ChangesetID: 8,
 				Tags: osm.Tags{{Key: "type", Value: "boundary"}}, Members: rev})
+			if v.secondFirst {
+				n := len(b.OSM.Relations)
+				b.OSM.Relations[n-2], b.OSM.Relations[n-1] = b.OSM.Relations[n-1], b.OSM.Relations[n-2]
+			}
 			want = 2
 		}
 		calls := 1
